@@ -23,7 +23,7 @@ LInit(cfg, sc, viol) ==
      live |-> <<>>, released |-> {},
      sol |-> NoFrag, uns |-> NoFrag,
      rd  |-> [pend |-> FALSE, seq |-> -1, hdrs |-> <<>>, bid |-> -1],
-     ser |-> [active |-> FALSE, S |-> <<>>, check |-> FALSE, next |-> -1],
+     ser |-> [active |-> FALSE, S |-> <<>>, check |-> FALSE, next |-> -1, hdrs |-> <<>>],
      ovf |-> FALSE, rst |-> TRUE,
      bc  |-> [set |-> FALSE, man |-> FALSE, reported |-> FALSE, maybe |-> FALSE, gen |-> 0],
      app |-> cfg.app,
@@ -231,6 +231,16 @@ HdrModelled(h) ==
     \/ h.g \in {1, 3, 10, 20, 21, 30, 40, 110}
 AllModelled(hdrs) == \A i \in 1..Len(hdrs) : HdrModelled(hdrs[i])
 
+\* the variation an event object may be reported in: the point's configured event variation, or a
+\* variation the READ being answered names explicitly for that group (octet strings: the length)
+PointEvar(cfg, ty, ix) ==
+    LET ps == SelectSeq(cfg.points, LAMBDA p : p.ty = ty /\ p.ix = ix)
+    IN  IF ps = <<>> THEN 0 ELSE ps[1].evar
+VarOk(L, o, hdrs) ==
+    \/ o.ty = "os"
+    \/ o.v = PointEvar(L.cfg, o.ty, o.ix)
+    \/ \E i \in 1..Len(hdrs) : hdrs[i].g = o.g /\ hdrs[i].v = o.v /\ hdrs[i].v # 0
+
 IsPrefixOf(a, b) == Len(a) <= Len(b) /\ \A i \in 1..Len(a) : a[i] = b[i]
 
 \* a re-sent fragment (unsolicited retry, echo of a repeated READ in the confirm wait) is the same
@@ -262,9 +272,15 @@ ApplyTx(L000, x, e, l) ==
                 THEN AddViol(L0, "C03", "no-match", l,
                              "transmitted event object matches no recorded, unreleased event (invented or altered)")
                 ELSE L0
-        L2 == IF ~Ascending(ids)
+        L2a == IF ~Ascending(ids)
                 THEN AddViol(L1, "C03", "order", l, "events not reported oldest first")
                 ELSE L1
+        hdrsNow == IF x.uns THEN <<>>
+                   ELSE IF x.fir /\ L.rd.pend /\ x.seq = L.rd.seq THEN L.rd.hdrs ELSE L.ser.hdrs
+        L2 == IF \E i \in 1..Len(x.objs) : x.objs[i].ev /\ ~VarOk(L, x.objs[i], hdrsNow)
+                THEN AddViol(L2a, "C03", "wrong-variation", l,
+                             "event reported in a variation that is neither configured nor requested (fields dropped or altered)")
+                ELSE L2a
     IN
     IF x.uns THEN
         [L2 EXCEPT !.uns = [has |-> TRUE, active |-> x.con, seq |-> x.seq, bid |-> x.bid,
@@ -276,7 +292,7 @@ ApplyTx(L000, x, e, l) ==
                     THEN [L2 EXCEPT !.rd.pend = FALSE,
                                     \* a deferred READ becomes "the request processed last" when it is answered
                                     !.lastReq = [bid |-> L2.rd.bid, seq |-> L2.rd.seq],
-                                    !.ser = [active |-> TRUE,
+                                    !.ser = [active |-> TRUE, hdrs |-> L2.rd.hdrs,
                                              S |-> Selected(L2, L2.rd.hdrs),
                                              check |-> AllModelled(L2.rd.hdrs) /\ ~Iin2Err(x),
                                              next |-> x.seq]]
